@@ -49,6 +49,9 @@ type Case struct {
 	// Rec: handler.RecoverHandler sits between the timeout middleware and the work (the order of
 	// the chain the rest engine builds), with a gate in between (recGate, restctl.go)
 	Rec bool `json:"rec"`
+	// Stall (with d.mode "stall"): a slow client — the Write the handler's first effective Flush makes on the
+	// real writer stalls; the request is cancelled meanwhile; 300 ms later the stall is lifted
+	Stall bool `json:"stall"`
 }
 
 type Out struct {
@@ -163,6 +166,9 @@ func runRest(c Case) (out Out) {
 		req.Header.Set("Accept", "text/event-stream")
 	}
 	rw := newRecw(c.H0, &sret)
+	if c.Stall {
+		rw.stall, rw.stalled = make(chan struct{}), make(chan struct{}, 1)
+	}
 	rww := asWriter(rw, c.Fl)
 	if pre {
 		// the Done event precedes everything: ServeHTTP may enter its select with
@@ -240,6 +246,23 @@ func runRest(c Case) (out Out) {
 		case gate <- hcmd{selfCancel, c.D.Yield}:
 		case <-time.After(5 * time.Second):
 			return hack{}, false
+		}
+		if rw.stall != nil && !rw.stallUsed.Load() {
+			select {
+			case a := <-acks:
+				return a, true
+			case <-rw.stalled:
+				// the handler is inside its Flush, the real writer does not take the bytes yet:
+				// the Done event falls here.  With tw.mu held by Flush the timeout branch has to wait
+				cancelParent()
+				emitD()
+				if wrapped() && !sSeen && sReturned(300*time.Millisecond) {
+					emitS()
+				}
+				close(rw.stall)
+			case <-time.After(5 * time.Second):
+				return hack{}, false
+			}
 		}
 		a, ok, hung := waitHack(acks)
 		out.Hung = hung
@@ -428,7 +451,7 @@ func runRest(c Case) (out Out) {
 func runLockProbe(id int) map[string]any {
 	var sret atomic.Bool
 	rw := newRecw(nil, &sret)
-	rw.stall, rw.stalled = make(chan struct{}), make(chan struct{})
+	rw.stall, rw.stalled = make(chan struct{}), make(chan struct{}, 1)
 	rw.sgid = -1
 	parent, cancel := context.WithCancel(context.Background())
 	defer cancel()
